@@ -300,8 +300,8 @@ pub fn property() -> Property {
         rule: "generated: timestamp sequences of length 0..12 over base+0..30 in any order x {BoundedOutOfOrder(0..10 ms), MonotonicAscending} x {Drop, AllowedLateness(0..10), SideOutput, RecomputeWindows}; plus exhaustive enumeration of all sequences of length 4..6 (quick) / 4..8 (thorough) over a 6-value domain x 20 configurations (every prefix is judged, so shorter sequences are covered). Oracle: watermark/late model from the statement, compared after every add_event (watermark value, monotonicity, events, side output, stats, conservation, history). Non-trivial: at least one late event and a watermark advance after it; distinct by (configuration, sequence).",
         assumptions: vec!["The Periodic strategy reads the wall clock: its watermark values are not modelled; part `periodic` judges only what is stated relative to the watermark observed before each call (monotone, late iff below it, routing, statistics), with real sleeps past the interval in the generator but no clock in the oracle. Custom does nothing.".into()],
         parts: vec![
-            Part { name: "random", run, quick: Budget::Random { cases: 400_000, bytes: 40 }, thorough: Budget::Random { cases: 8_000_000, bytes: 40 }, min_nontrivial_pct: 15 },
-            Part { name: "periodic", run: run_periodic, quick: Budget::Random { cases: 3_000, bytes: 40 }, thorough: Budget::Random { cases: 60_000, bytes: 40 }, min_nontrivial_pct: 20 },
+            Part { name: "random", run, quick: Budget::Random { cases: 4_000_000, bytes: 40 }, thorough: Budget::Random { cases: 20_000_000, bytes: 40 }, min_nontrivial_pct: 15 },
+            Part { name: "periodic", run: run_periodic, quick: Budget::Random { cases: 10_000, bytes: 40 }, thorough: Budget::Random { cases: 60_000, bytes: 40 }, min_nontrivial_pct: 20 },
             Part { name: "exh4", run, quick: Budget::Exhaustive { param: 4 }, thorough: Budget::Exhaustive { param: 4 }, min_nontrivial_pct: 0 },
             Part { name: "exh5", run, quick: Budget::Exhaustive { param: 5 }, thorough: Budget::Exhaustive { param: 5 }, min_nontrivial_pct: 0 },
             Part { name: "exh6", run, quick: Budget::Exhaustive { param: 6 }, thorough: Budget::Exhaustive { param: 6 }, min_nontrivial_pct: 0 },
